@@ -438,7 +438,9 @@ impl<T: Payload> World<T> {
                     self.diverged = true;
                 }
             }
-            if model_in_step && inv_ok {
+            // the per-id and per-tombstone oracles rely on the model's view of which slot holds what:
+            // they are evaluated only while the refinement above agrees
+            if model_in_step && inv_ok && !self.diverged {
                 self.check_tombs(&mut out.viols);
                 self.check_c06(&mut out.viols);
                 self.check_ledger_live(&mut out.viols);
